@@ -24,6 +24,7 @@ the caller reports ANALYSIS-ERROR, never a verdict.
 from __future__ import annotations
 
 import ast
+import re
 import copy
 import itertools
 
@@ -175,6 +176,14 @@ def _as_seq(v):
     return None
 
 
+_LOOP_VAR = re.compile(r"(?<![A-Za-z0-9_])_[ie]\d+(?![A-Za-z0-9_])")
+
+
+def _loop_var(t: str) -> bool:
+    """The text mentions an element / index variable of a summarised loop (_e1, _i2)."""
+    return bool(_LOOP_VAR.search(t))
+
+
 def neg_text(ctext: str) -> str:
     if " and " in ctext or " or " in ctext:
         return f"not ({ctext})"
@@ -204,6 +213,7 @@ def atom_text(v) -> str:
     return repr(v)
 
 
+STR_CALLS = (".strftime", ".isoformat")  # methods whose result is text whatever the receiver
 BYTES_CALLS = ("encode_item_header", "struct.pack", "bytes", "bytearray", ".to_bytes", ".encode", ".join")
 
 
@@ -395,15 +405,15 @@ class Summariser:
                 base = base[4:]
             if base not in self.atoms and neg_text(base) in self.atoms:
                 base = neg_text(base)  # the condition is registered in its canonical (negative) orientation
-            if base in self.atoms and "_i" not in base and "_e" not in base:
+            if base in self.atoms and not _loop_var(base):
                 return base
         if isinstance(v, Seq):
             for part in v.parts:
-                if part[0] == "if" and part[1] in self.atoms and "_i" not in part[1] and "_e" not in part[1]:
+                if part[0] == "if" and part[1] in self.atoms and not _loop_var(part[1]):
                     return part[1]
         for t in self._texts(p):
             for ctxt, (c, a, b) in self.condterms.items():
-                if ctxt in t and c in self.atoms and "_i" not in c and "_e" not in c:
+                if ctxt in t and c in self.atoms and not _loop_var(c):
                     return c
         return None
 
@@ -1183,6 +1193,25 @@ class Summariser:
             kind = getattr(a, "kind", None) if getattr(a, "kind", None) == getattr(b, "kind", None) else None
             return self.cond_term(ctext, a, b, kind)
         if isinstance(node, ast.JoinedStr):
+            # f"{a}{b}" of two texts is a + b
+            pieces = []
+            for v in node.values:
+                if isinstance(v, ast.Constant) and isinstance(v.value, str):
+                    pieces.append(Term(repr(v.value), "str"))
+                    continue
+                if not isinstance(v, ast.FormattedValue) or v.conversion != -1 or v.format_spec is not None:
+                    pieces = None
+                    break
+                part = self.ev(v.value, dict(env))
+                if not ((isinstance(part, Term) and part.kind == "str") or (isinstance(part, Seq) and part.kind == "str")):
+                    pieces = None
+                    break
+                pieces.append(part)
+            if pieces and len(pieces) > 1 and any(not (isinstance(x, Term) and x.text.startswith(("'", '"'))) for x in pieces):
+                out = pieces[0]
+                for x in pieces[1:]:
+                    out = self.binop(ast.Add(), out, x)
+                return out
             return Term(self.canon(node, env), "str")
         if isinstance(node, ast.Dict) and not node.keys:
             return Seq("dict", ())
@@ -1208,7 +1237,7 @@ class Summariser:
             base = self.ev(node.value, env)
             if isinstance(base, Tup) and isinstance(node.slice, ast.Constant) and isinstance(node.slice.value, int) and -len(base.items) <= node.slice.value < len(base.items):
                 return base.items[node.slice.value]
-            kind = "bytes" if isinstance(node.slice, ast.Slice) and getattr(base, "kind", None) == "bytes" else None
+            kind = getattr(base, "kind", None) if isinstance(node.slice, ast.Slice) and getattr(base, "kind", None) in ("bytes", "str") and isinstance(base, Term) else None
             return Term(self.canon(node, env), kind)
         return Term(self.canon(node, env))
 
@@ -1308,6 +1337,8 @@ class Summariser:
                 return Seq("bytes", v.parts)
         txt = self.canon(node, env)
         kind = "bytes" if any(name.endswith(x) or name == x.lstrip(".") for x in BYTES_CALLS) else None
+        if kind is None and (name.endswith(STR_CALLS) or name in ("str", "repr", "hex", "chr", "oct", "bin")):
+            kind = "str"
         return Term(txt, kind)
 
     # canonical text of an expression: locals replaced by what they stand for, integer arithmetic normalised
